@@ -257,3 +257,68 @@ pub fn gen_ja(r: &mut Rng, region: RegionId, wild: bool) -> JaSpec {
         tamper: Tamper::None,
     }
 }
+
+/// A MAC command the regional rules allow (so that it is normally accepted and changes state).
+pub fn gen_mac_valid(r: &mut Rng, region: RegionId) -> MacSpec {
+    let fixed = region.is_fixed();
+    match r.below(if fixed { 8 } else { 12 }) {
+        0 | 1 | 2 => {
+            let ups = rr::uplink_drs(region);
+            let dr = if r.chance(1, 4) { 15 } else { *r.pick(&ups) };
+            let pow = if r.chance(1, 3) { 15 } else { r.below(rr::max_tx_power_index(region) as u64 + 1) as u8 };
+            let (ctl, mask) = if fixed {
+                match r.below(6) {
+                    0 => (0u8, 0xFFFFu16),
+                    1 => (r.below(4) as u8, (r.next_u32() as u16) | 0x0003),
+                    2 => (4, r.below(256) as u16 | 1),
+                    3 => (5, r.below(255) as u16 + 1),
+                    4 => (6, r.below(256) as u16),
+                    _ => (7, r.below(255) as u16 + 1),
+                }
+            } else if r.chance(1, 4) {
+                (6, 0)
+            } else {
+                (0, (r.next_u32() as u16 & 0x00FF) | (1 << r.below(2)))
+            };
+            MacSpec::LinkAdr { dr, pow, mask, ctl, nbtrans: r.below(4) as u8 }
+        }
+        3 | 4 => {
+            let defined: Vec<u8> = rr::datarates(region).iter().enumerate().filter(|(i, d)| d.is_some() && !(region == RegionId::EU868 && *i == 6)).map(|(i, _)| i as u8).collect();
+            MacSpec::RxParamSetup { rx1off: r.below(rr::max_rx1_dr_offset(region) as u64 + 1) as u8, rx2dr: *r.pick(&defined), freq: freq_in_band(r, region) }
+        }
+        5 | 6 => MacSpec::RxTimingSetup { del: r.below(16) as u8 },
+        7 => MacSpec::DevStatus,
+        8 | 9 => {
+            let join = rr::default_channels(region).len() as u8;
+            MacSpec::NewChannel { idx: r.range(join as i64, 15) as u8, freq: if r.chance(1, 6) { 0 } else { freq_in_band(r, region) }, drrange: *r.pick(&[0x50u8, 0x50, 0x30, 0x52, 0x55]) }
+        }
+        _ => MacSpec::DlChannel { idx: r.below(8) as u8, freq: freq_in_band(r, region) },
+    }
+}
+
+/// A JoinAccept whose settings are valid for the region.
+pub fn gen_ja_valid(r: &mut Rng, region: RegionId) -> JaSpec {
+    let defined: Vec<u8> = rr::datarates(region).iter().enumerate().filter(|(i, d)| d.is_some() && !(region == RegionId::EU868 && *i == 6)).map(|(i, _)| i as u8).collect();
+    let dl = ((r.below(rr::max_rx1_dr_offset(region) as u64 + 1) as u8) << 4) | *r.pick(&defined);
+    let cflist = if r.chance(1, 2) {
+        let mut v = vec![0u8; 16];
+        if region.is_fixed() {
+            for b in v.iter_mut().take(8) {
+                *b = if r.chance(1, 2) { 0xFF } else { r.next_u32() as u8 | 0x03 };
+            }
+            v[8] = r.next_u32() as u8 | 1;
+            v[15] = 1;
+        } else {
+            for i in 0..5 {
+                let f = if r.chance(1, 5) { 0 } else { freq_in_band(r, region) };
+                v[3 * i] = f as u8;
+                v[3 * i + 1] = (f >> 8) as u8;
+                v[3 * i + 2] = (f >> 16) as u8;
+            }
+        }
+        Some(v)
+    } else {
+        None
+    };
+    JaSpec { join_nonce: r.next_u32() & 0xFF_FFFF, net_id: r.next_u32() & 0xFF_FFFF, devaddr: r.next_u32(), dl_settings: if r.chance(1, 3) { 0 } else { dl }, rx_delay: r.below(16) as u8, cflist, tamper: Tamper::None }
+}
